@@ -337,7 +337,9 @@ impl<'a> Run<'a> {
             let last_done = fs.iter().enumerate().filter(|(i, f)| *i >= from && f.ctx == r.ctx && !stamped(f) && answered(f)).map(|(i, _)| i).last();
             let from = last_done.unwrap_or(from).max(from);
             for f in fs[from..].iter() {
-                if f.ctx != r.ctx || stamped(f) {
+                // (a .register / .unregister of its own name stops the instance even if it appended it itself)
+                let lifecycle = f.name == r.name && (f.suf == "register" || f.suf == "unregister");
+                if f.ctx != r.ctx || (stamped(f) && !lifecycle) {
                     continue;
                 }
                 if let Some(aid) = &after_id {
